@@ -34,7 +34,7 @@ type krepro struct {
 }
 
 // reproDebounce: the debounce time of the repro's control plane (default 2ms).
-var reproDebounce = map[string]time.Duration{"proxyupdate-merged-into-endpoints-push": 0}
+var reproDebounce = map[string]time.Duration{"proxyupdate-merged-into-endpoints-push": 0, "root-peerauthentication-deleted-after-context-built": 0}
 
 // kscript builds an initial cluster and batches by hand on top of the generator's object constructors.
 type kscript struct {
@@ -279,6 +279,23 @@ var kRepros = []krepro{
 		b.add(b.k("delete", sl, "removed"))
 		b.flush()
 	}},
+	{"root-peerauthentication-deleted-after-context-built", "P1 (same defect as the known service-key-dropped finding, for a PeerAuthentication key): the mesh-wide PeerAuthentication is deleted right " +
+		"after an unrelated PeerAuthentication of another namespace changed. With no debounce the first event starts a push whose context is built when the deletion is already in the store: " +
+		"the sidecar scope is recomputed without the policy for a key that does not concern the proxy (no push). When the deletion's own key arrives neither the current nor the previous scope " +
+		"lists the policy, proxyDependentOnConfig drops the key and the proxy keeps STRICT inbound filter chains. Timing dependent: the pair is repeated to make a hit likely",
+		func(b *kscript) {
+			strict := &securitybeta.PeerAuthentication{Mtls: &securitybeta.PeerAuthentication_MutualTLS{Mode: securitybeta.PeerAuthentication_MutualTLS_STRICT}}
+			for i := 0; i < 8; i++ {
+				b.add(b.cfg(map[bool]string{true: "create", false: "update"}[i == 0], gvk.PeerAuthentication, "ns3", "pa-other", &securitybeta.PeerAuthentication{
+					Mtls: &securitybeta.PeerAuthentication_MutualTLS{Mode: securitybeta.PeerAuthentication_MutualTLS_Mode(1 + i%3)}}))
+				b.add(b.cfg("create", gvk.PeerAuthentication, rootNS, "pa-mesh", strict))
+				b.flush()
+				b.add(b.cfg("update", gvk.PeerAuthentication, "ns3", "pa-other", &securitybeta.PeerAuthentication{
+					Mtls: &securitybeta.PeerAuthentication_MutualTLS{Mode: securitybeta.PeerAuthentication_MutualTLS_Mode(1 + (i+1)%3)}}),
+					b.cfg("delete", gvk.PeerAuthentication, rootNS, "pa-mesh", nil))
+				b.flush()
+			}
+		}},
 }
 
 // initialBase returns the fixed part of the initial cluster: namespaces, nodes and the pods of pod-backed proxies.
@@ -315,6 +332,7 @@ func reproSelected() string { return os.Getenv("XDSCONV_REPRO") }
 // runRepros runs the selected scripted histories with the C01 oracle at every batch.
 func runRepros(c *vh.Ctx) {
 	sel := reproSelected()
+	runZRepros(c, sel)
 	for i, rp := range kRepros {
 		if sel != "all" && sel != rp.name {
 			continue
@@ -338,6 +356,7 @@ func runRepros(c *vh.Ctx) {
 			w := newWorldK(c, debounce, "k", b.initial)
 			defer w.close()
 			w.hist = b.batches
+			w.caseName = "krepro/" + rp.name
 			if !quiesce(w.a) {
 				c.Inconclusive("initial sync did not quiesce")
 				return
